@@ -60,6 +60,8 @@ class ModuleScan(object):
         self.sites = []
         self.classes = {}      # name -> dict(params, init, props)
         self.where = relpath
+        self._local = {}
+        self._accounted = set()
 
     def err(self, node, msg):
         raise ExtractError("%s:%s: %s: %s" % (self.rel, getattr(node, "lineno", "?"), msg,
@@ -244,6 +246,35 @@ class ModuleScan(object):
         base_id = "%s.%s" % (clsname, qual) if clsname is not None else qual
         found = []
         is_init = clsname is not None and qual == "__init__"
+        # simple local aliases: `cls = self._anchorClass` (a name bound exactly once, to a class slot / property /
+        # self.__class__) may be used as a callee or as a class keyword value
+        binds = {}
+        for n in ast.walk(fn):
+            targets = []
+            if isinstance(n, ast.Assign):
+                targets = n.targets
+            elif isinstance(n, (ast.AugAssign, ast.AnnAssign, ast.For, ast.NamedExpr)):
+                targets = [n.target]
+            elif isinstance(n, ast.With):
+                targets = [i.optional_vars for i in n.items if i.optional_vars is not None]
+            for t in targets:
+                for x in ast.walk(t):
+                    if isinstance(x, ast.Name):
+                        binds.setdefault(x.id, []).append(n)
+        self._local = {}
+        self._accounted = set()
+        for name, nodes in binds.items():
+            if len(nodes) == 1 and isinstance(nodes[0], ast.Assign) and len(nodes[0].targets) == 1 \
+                    and isinstance(nodes[0].targets[0], ast.Name) and name not in params:
+                a = _self_attr(nodes[0].value)
+                if a is not None and _is_classy(a):
+                    self._local[name] = ("sameClass",) if a == "__class__" else (("slot", a) if a.startswith("_") else ("prop", a))
+                    self._accounted.add(id(nodes[0].value))
+        g = self.simple_getter(fn)
+        if g is not None:
+            for n in ast.walk(fn):
+                if isinstance(n, ast.Return) and n.value is not None:
+                    self._accounted.add(id(n.value))
 
         def visit(node, qual_id):
             for child in ast.iter_child_nodes(node):
@@ -256,6 +287,19 @@ class ModuleScan(object):
                 self.check_node(child, alias, is_init, found, owner)
                 visit(child, qual_id)
         visit(fn, base_id)
+        # every other read of a class slot / class property / self.__class__ is an unrecognised shape
+        for n in ast.walk(fn):
+            if isinstance(n, ast.Attribute) and n.attr == "__name__" and _self_attr(n.value) == "__class__":
+                self._accounted.add(id(n.value))     # `self.__class__.__name__` in a __repr__
+        for n in ast.walk(fn):
+            if isinstance(n, ast.Attribute) and isinstance(n.ctx, ast.Load):
+                a = _self_attr(n)
+                if a is not None and _is_classy(a) and id(n) not in self._accounted:
+                    self.err(n, "class slot read in an unrecognised position")
+            if isinstance(n, ast.Name) and isinstance(n.ctx, ast.Load) and n.id in self._local \
+                    and id(n) not in self._accounted:
+                self.err(n, "local class alias used in an unrecognised position")
+        self._local = {}
         # number the sites of this function in source order
         found.sort(key=lambda f: (f["line"], f["col"]))
         plain = [f for f in found if f["kind"] == "call"]
@@ -278,11 +322,16 @@ class ModuleScan(object):
         a = _self_attr(f)
         if a is not None:
             if a == "__class__":
+                self._accounted.add(id(f))
                 return ("sameClass",)
             if a.endswith("Class"):
+                self._accounted.add(id(f))
                 return ("slot", a) if a.startswith("_") else ("prop", a)
             return None
         if isinstance(f, ast.Name):
+            if f.id in getattr(self, "_local", {}):
+                self._accounted.add(id(f))
+                return self._local[f.id]
             if f.id in alias:
                 return ("hard", alias[f.id])
             if _is_classy(f.id):
@@ -337,7 +386,11 @@ class ModuleScan(object):
             v = k.value
             a = _self_attr(v)
             if a is not None and a.endswith("Class"):
+                self._accounted.add(id(v))
                 kwargs.append((k.arg, ("slot", a) if a.startswith("_") else ("prop", a)))
+            elif isinstance(v, ast.Name) and v.id in self._local and self._local[v.id][0] in ("slot", "prop"):
+                self._accounted.add(id(v))
+                kwargs.append((k.arg, self._local[v.id]))
             elif isinstance(v, ast.Constant) and v.value is None:
                 kwargs.append((k.arg, ("none",)))
             else:
